@@ -9,6 +9,7 @@ import (
 	"encoding/json"
 	"fmt"
 	"os"
+	"path/filepath"
 	"runtime"
 	"sort"
 	"strconv"
@@ -228,6 +229,7 @@ func Judge(obs *e2e.Obs) (fs []finding, info map[string]int) {
 		for _, m := range vkit.Select(ms, "buffer_input_chunks_total", nil) {
 			sets[ok{m.Labels["output"], m.Labels["key_app"], m.Labels["key_level"]}] = true
 		}
+		g0files := g.DiskFiles
 		filesAfter := map[ok]int{}
 		for f := range g.DiskFiles {
 			p := strings.Split(f, "/")
@@ -237,6 +239,15 @@ func Judge(obs *e2e.Obs) (fs []finding, info map[string]int) {
 			}
 		}
 		filesBefore := map[ok]int{}
+		if gi == 1 {
+			for k, n := range plantedIn { // what the harness itself put there between the generations
+				p := strings.Split(k, "/")
+				ks := strings.SplitN(keysetOfDir(p[1]), ",", 2)
+				if len(ks) == 2 {
+					filesBefore[ok{p[0], ks[0], ks[1]}] += n
+				}
+			}
+		}
 		if gi > 0 {
 			for f := range obs.Gens[gi-1].DiskFiles {
 				p := strings.Split(f, "/")
@@ -297,6 +308,36 @@ func Judge(obs *e2e.Obs) (fs []finding, info map[string]int) {
 			} else if int(leftover+pending)+skipped < filesAfter[s]-int(dropped) || int(leftover+pending)+skipped > filesAfter[s]+int(dropped) {
 				add("buffer:accepted-vs-disk", fmt.Sprintf("%s: leftover %v + pending %v (+%d skipped) vs %d files differ by more than the %v dropped chunks", d, leftover, pending, skipped, filesAfter[s], dropped))
 			}
+			// the gauge of chunks on disk against the directory: what the buffer believes to have on disk is what is there
+			// (files skipped by recovery are not the buffer's; a dropped chunk may leave its file behind or take it along)
+			if pc := vkit.Select(ms, "buffer_persistent_chunks", lb); len(pc) > 0 {
+				info["equations"]++
+				g := int(vkit.Sum(ms, "buffer_persistent_chunks", lb) + 0.5)
+				if vkit.Sum(ms, "buffer_persistent_chunks", lb) < 0 {
+					g = int(vkit.Sum(ms, "buffer_persistent_chunks", lb) - 0.5)
+				}
+				want := filesAfter[s] - skipped
+				// a dropped chunk may leave its file behind (queue overflow of an unloaded chunk) - except the empty files this
+				// harness planted, whose drop removes the file: those give no slack
+				tol := int(dropped)
+				if gi == 1 {
+					for k, n := range plantedIn {
+						p := strings.Split(k, "/")
+						ks := strings.SplitN(keysetOfDir(p[1]), ",", 2)
+						if len(ks) == 2 && (ok{p[0], ks[0], ks[1]}) == s {
+							if _, still := g0files[k+"/0000000000000000001-00000000.ff"]; !still {
+								tol -= n
+							}
+						}
+					}
+					if tol < 0 {
+						tol = 0
+					}
+				}
+				if g < want-tol || g > want+tol {
+					add("buffer:persistent-gauge-vs-disk", fmt.Sprintf("%s: gauge persistent_chunks says %d, the queue directory holds %d chunk files (%d of them skipped by recovery; %v chunks dropped)", d, g, filesAfter[s], skipped, dropped))
+				}
+			}
 			if leftover > input-consumed-dropped+0.5 {
 				add("buffer:leftover-exceeds", fmt.Sprintf("%s: leftover %v > input %v - consumed %v - dropped %v", d, leftover, input, consumed, dropped))
 			}
@@ -333,6 +374,9 @@ func Judge(obs *e2e.Obs) (fs []finding, info map[string]int) {
 	return fs, info
 }
 
+var planted int
+var plantedIn = map[string]int{} // "outN/<queue dir>" -> files planted before generation 1
+
 func childMain(c *vkit.Ctx) {
 	idx, _ := strconv.Atoi(c.Arg("idx"))
 	var sc e2e.Scenario
@@ -345,7 +389,25 @@ func childMain(c *vkit.Ctx) {
 		runtime.GOMAXPROCS(sc.Procs)
 	}
 	c.LogCase(sc.ID + ":" + sc.Family)
-	obs, err, attempts, expired := e2e.RunStable(sc, c.WorkDir(), e2e.Hooks{BeforeStop: func(gen int, a *e2e.Agent, ups []*upstream.Server) {
+	plant := idx%5 == 2 && len(sc.Gens) > 1
+	obs, err, attempts, expired := e2e.RunStable(sc, c.WorkDir(), e2e.Hooks{BeforeStart: func(gen int) {
+		if !plant || gen != 1 {
+			return
+		}
+		// a zero-length, validly named chunk file that sorts first, in every queue directory that exists: the next generation
+		// must drop it as corrupt, count that, and keep its books straight
+		root := filepath.Join(c.WorkDir(), "sc-"+sc.ID)
+		dirs, _ := filepath.Glob(filepath.Join(root, "q*", "*"))
+		for _, d := range dirs {
+			if st, err := os.Stat(d); err == nil && st.IsDir() {
+				if os.WriteFile(filepath.Join(d, "0000000000000000001-00000000.ff"), nil, 0o644) == nil {
+					planted++
+					out := "out" + strings.TrimPrefix(filepath.Base(filepath.Dir(d)), "q")
+					plantedIn[out+"/"+filepath.Base(d)]++
+				}
+			}
+		}
+	}, BeforeStop: func(gen int, a *e2e.Agent, ups []*upstream.Server) {
 		if !sc.Gens[gen].WaitAcked {
 			return
 		}
@@ -371,6 +433,9 @@ func childMain(c *vkit.Ctx) {
 		c.Event(k, v)
 	}
 	c.Event("family:"+sc.Family, 1)
+	if planted > 0 {
+		c.Event("empty_chunk_files_planted_between_generations", planted)
+	}
 	if info["generations_judged"] > 0 && (info["chunks_leftover"] > 0 || info["chunks_dropped"] > 0 || len(sc.Gens) > 1 || sc.Family == "label-tuples" || sc.Family == "reset-after-k") {
 		b, _ := json.Marshal(sc)
 		c.Nontrivial(sc.Family + ":" + vkit.Hash(string(b)))
